@@ -358,7 +358,7 @@ func (r *Report) Finish() int {
 	inlined, trusted, havocked, unsupp, efffree = sortedKeys(setI), sortedKeys(setT), sortedKeys(setH), sortedKeys(setU), sortedKeys(setE)
 	samples := []any{}
 	for i, o := range evObs {
-		if i%(len(evObs)/6+1) == (r.Seed % (len(evObs)/6 + 1)) && len(samples) < 8 {
+		if i%(len(evObs)/6+1) == (r.Seed%(len(evObs)/6+1)) && len(samples) < 8 {
 			samples = append(samples, o)
 		}
 	}
@@ -367,26 +367,26 @@ func (r *Report) Finish() int {
 	}
 	level := "proof"
 	cov := map[string]any{
-		"obligations":                   nClaimed,
-		"discharged":                    nDischarged,
-		"checker_cmd":                   fmt.Sprintf("bin/check %s --tier %s", r.Prop, r.Tier),
-		"trusted_base":                  append(trusted, prefixAll("effect-free (result unconstrained, no heap effect): ", efffree)...),
-		"functions_under_contract":      funcs,
-		"functions_inlined":             inlined,
-		"calls_havocked_without_spec":   havocked,
-		"unsupported_constructs":        unsupp,
-		"undecided_unclaimed":           undecided,
-		"fields_treated_immutable":      sortedKeys(setM),
-		"by_solver":                     bySolver,
-		"solver_ms_total":               solverMs,
-		"obligation_list":               evObs,
-		"samples":                       samples,
-		"known_findings_reported":       knownReported,
-		"load_s":                        round1(r.LoadS),
-		"vcgen_s":                       round1(r.GenS),
-		"solvers":                       []string{"z3 4.8.12", "z3 5.1.0 (z3-new)", "cvc5 1.0"},
-		"generated_obligations_total":   len(r.Verdicts),
-		"unclaimed_not_attempted":       notAttempted,
+		"obligations":                 nClaimed,
+		"discharged":                  nDischarged,
+		"checker_cmd":                 fmt.Sprintf("bin/check %s --tier %s", r.Prop, r.Tier),
+		"trusted_base":                append(trusted, prefixAll("effect-free (result unconstrained, no heap effect): ", efffree)...),
+		"functions_under_contract":    funcs,
+		"functions_inlined":           inlined,
+		"calls_havocked_without_spec": havocked,
+		"unsupported_constructs":      unsupp,
+		"undecided_unclaimed":         undecided,
+		"fields_treated_immutable":    sortedKeys(setM),
+		"by_solver":                   bySolver,
+		"solver_ms_total":             solverMs,
+		"obligation_list":             evObs,
+		"samples":                     samples,
+		"known_findings_reported":     knownReported,
+		"load_s":                      round1(r.LoadS),
+		"vcgen_s":                     round1(r.GenS),
+		"solvers":                     []string{"z3 4.8.12", "z3 5.1.0 (z3-new)", "cvc5 1.0"},
+		"generated_obligations_total": len(r.Verdicts),
+		"unclaimed_not_attempted":     notAttempted,
 	}
 	assumptions := []string{
 		"govc (this VC generator) is sound for the SSA subset it translates; unsupported constructs are over-approximated (unconstrained values / havocked heap) and listed under unsupported_constructs",
@@ -479,18 +479,18 @@ func shortOfKey(k string) string {
 }
 
 type replayFile struct {
-	Property   string      `json:"property"`
-	Obligation string      `json:"obligation"`
-	Kind       string      `json:"kind"`
-	Clause     string      `json:"clause"`
-	Pos        string      `json:"source_position"`
-	Status     string      `json:"status"`
-	SMT        string      `json:"smt_script"`
-	Runs       []SolverRun `json:"solver_runs"`
-	Model      string      `json:"model,omitempty"`
+	Property   string            `json:"property"`
+	Obligation string            `json:"obligation"`
+	Kind       string            `json:"kind"`
+	Clause     string            `json:"clause"`
+	Pos        string            `json:"source_position"`
+	Status     string            `json:"status"`
+	SMT        string            `json:"smt_script"`
+	Runs       []SolverRun       `json:"solver_runs"`
+	Model      string            `json:"model,omitempty"`
 	Values     map[string]string `json:"counterexample,omitempty"`
-	Replay     any         `json:"replay_on_real_code,omitempty"`
-	Note       string      `json:"note"`
+	Replay     any               `json:"replay_on_real_code,omitempty"`
+	Note       string            `json:"note"`
 }
 
 func (r *Report) writeReplay(dir string, v *Verdict) (string, bool) {
